@@ -291,6 +291,7 @@ def main(argv=None):
     p.add_argument("--mutants", action="store_true")
     p.add_argument("--scale", type=float, default=0.25)
     p.add_argument("--only", help="comma-separated mutant ids")
+    p.add_argument("--model", action="store_true", help="check the canonical reference model against numpy.fft")
     args = ap.parse_args(argv)
     if args.cmd in ("C06", "C07"):
         return cmd_check(args.cmd, args)
